@@ -9,6 +9,111 @@ from rules import e7
 HALF_PI = math.pi / 2
 
 
+def ring_offsets(ctx, crate):
+    """N: the point of in-cell offsets (dx, dy) of a RING cell is centre + ((dx - dy), (dx + dy - 1)) / nside
+    in the projection plane (the same affine map as the NESTED `sph_coo`, C03), read at sample
+    points on the extracted arguments of `unproj`; and the constant offsets `hash_with_dldh` returns
+    on its early exits (the north pole) are offsets, i.e. in [0, 1]."""
+    from sym import Engine
+    from rules.common import feval
+    from mir import f64_from_bits
+    clause = "offset-map"
+    fn = "ring::sph_coo"; cpc = "ring::center_of_projected_cell"
+    b = ctx.anchor(crate, fn, clause)
+    if b is not None:
+        e = Engine(crate, opaque={cpc, "unproj", "ensures_x_is_positive"}); e.run(fn); ctx.functions |= e.visited_fns
+        cen = [ev for ev in e.events.values() if ev.callee == cpc]; un = [ev for ev in e.events.values() if ev.callee == "unproj"]
+        ens = {ev.ret: ev for ev in e.events.values() if ev.callee == "ensures_x_is_positive"}
+        if len(cen) != 1 or len(un) != 1:
+            ctx.undecided(clause, fn + ":affine-map", "expected one centre and one unproj call", at=b.span)
+        else:
+            X = un[0].args[0]; Y = un[0].args[1]
+            if X in ens: X = ens[X].args[0]
+            bad = []
+            for cx, cy, dx, dy, n in ((1.0, 0.5, 0.25, 0.75, 4), (3.5, -1.25, 0.0, 0.0, 1), (0.125, 0.0, 0.5, 0.5, 3), (7.0, 1.5, 0.875, 0.125, 1024), (2.0, 0.25, 0.75, 0.5, 2)):
+                env = {('fld', cen[0].ret, 0): cx, ('fld', cen[0].ret, 1): cy, param("dx"): dx, param("dy"): dy, param("nside"): n}
+                gx, gy = feval(X, env, e), feval(Y, env, e)
+                wx, wy = cx + (dx - dy) / n, cy + (dx + dy - 1.0) / n
+                if gx is None or gy is None or abs(gx - wx) > 1e-14 or abs(gy - wy) > 1e-14: bad.append(((cx, cy, dx, dy, n), (gx, gy), (wx, wy)))
+            ctx.report(clause, fn + ":affine-map", not bad, "unproj receives centre + ((dx - dy), (dx + dy - 1)) / nside at 5 sample points" if not bad else
+                       "at (cx, cy, dx, dy, nside) = %s unproj receives %s, the offset map gives %s" % bad[0], at=b.span, kind="N")
+    # ring::vertices: [S, E, N, W] = unproj(centre + (0,-1), (1,0), (0,1), (-1,0) / nside), W wrapped
+    fnv = "ring::vertices"
+    bv = ctx.anchor(crate, fnv, clause)
+    if bv is not None:
+        e = Engine(crate, opaque={cpc, "unproj", "ensures_x_is_positive"}); r = e.run(fnv); ctx.functions |= e.visited_fns
+        cen = [ev for ev in e.events.values() if ev.callee == cpc]; un = {ev.ret: ev for ev in e.events.values() if ev.callee == "unproj"}
+        ens = {ev.ret: ev for ev in e.events.values() if ev.callee == "ensures_x_is_positive"}
+        slots = list(r.ret[3]) if r.returns and r.ret[0] == 'agg' and len(r.ret[3]) == 4 else None
+        if len(cen) != 1 or slots is None or any(sl not in un for sl in slots):
+            ctx.undecided(clause, fnv + ":vertex-offsets", "expected an array of four unproj results around one centre", at=bv.span)
+        else:
+            bad = []; wrapped = True
+            for (cx, cy, n) in ((1.0, 0.5, 4), (0.125, -1.5, 1), (7.75, 0.0, 1024), (3.0, 1.25, 3)):
+                env = {('fld', cen[0].ret, 0): cx, ('fld', cen[0].ret, 1): cy, param("nside"): n}
+                for k, (ox, oy) in enumerate(((0, -1), (1, 0), (0, 1), (-1, 0))):
+                    X, Y = un[slots[k]].args
+                    if k == 3 and X not in ens: wrapped = False
+                    if X in ens: X = ens[X].args[0]
+                    gx, gy = feval(X, env, e), feval(Y, env, e)
+                    if gx is None or gy is None or abs(gx - (cx + ox / n)) > 1e-14 or abs(gy - (cy + oy / n)) > 1e-14: bad.append(("SENW"[k], (cx, cy, n), (gx, gy)))
+            ctx.report(clause, fnv + ":vertex-offsets", not bad and wrapped, "slots S, E, N, W = centre + (0,-1), (1,0), (0,1), (-1,0) / nside at 4 sample centres; the W abscissa is wrapped into [0, 8)" if not bad and wrapped else
+                       ("the W abscissa is not wrapped (x - 1/nside is negative for the first cells of a ring)" if not bad else "vertex %s of the cell centred at %s is taken at %s" % bad[0]), at=bv.span, kind="N")
+    # ring::hash_with_dxdy returns (h, dx, dy) with (dx, dy) = dldh_to_dxdy(dl, dh) of the same call
+    fnh = "ring::hash_with_dxdy"
+    bh = ctx.anchor(crate, fnh, clause)
+    if bh is not None:
+        e = Engine(crate, opaque={"ring::hash_with_dldh", "ring::dldh_to_dxdy"}); r = e.run(fnh); ctx.functions |= e.visited_fns
+        hd = [ev for ev in e.events.values() if ev.callee == "ring::hash_with_dldh"]; cv = [ev for ev in e.events.values() if ev.callee == "ring::dldh_to_dxdy"]
+        okr = False; why = "expected one hash_with_dldh and one dldh_to_dxdy call"
+        if len(hd) == 1 and len(cv) == 1 and r.returns:
+            R, D = hd[0].ret, cv[0].ret
+            okr = hd[0].args == [param("nside"), param("lon"), param("lat")] and cv[0].args == [('fld', R, 1), ('fld', R, 2)] and r.ret == ('agg', 'tuple', 0, (('fld', R, 0), ('fld', D, 0), ('fld', D, 1)))
+            why = "returns (h, dx, dy) with (dx, dy) = dldh_to_dxdy(dl, dh)" if okr else "returns %s from hash_with_dldh%s, dldh_to_dxdy%s" % (show(r.ret)[:80], [show(a) for a in hd[0].args], [show(a) for a in cv[0].args])
+        ctx.report(clause, fnh + ":returns-(h,dx,dy)", okr, why, at=bh.span, kind="N")
+    fn2 = "ring::hash_with_dldh"
+    b2 = crate.body(fn2)
+    if b2 is not None:
+        e = Engine(crate); rets = []
+        def vh(v, loc, facts):
+            lhs = e.cur_lhs
+            if loc[0] == fn2 and lhs["l"] == 0 and not lhs["p"] and v[0] == 'agg' and len(v[3]) == 3: rets.append(v)
+        e.value_hook = vh
+        e.run(fn2); ctx.functions |= e.visited_fns
+        # the half-box shift of the offsets (F15): (dl - 1/2, dh + 1/2) exactly when the facet step says "moved
+        # from the box West of the base cell" (-1), in the north cap
+        MOV = "ring::move_inside_polar_cap_facet"
+        e3 = Engine(crate, opaque={MOV, "proj", "ensures_x_is_positive", "ring::deal_with_1x1_box"}); rets3 = []
+        def vh3(v, loc, facts):
+            lhs = e3.cur_lhs
+            if loc[0] == fn2 and lhs["l"] == 0 and not lhs["p"] and v[0] == 'agg' and len(v[3]) == 3: rets3.append(v)
+        e3.value_hook = vh3
+        e3.run(fn2)
+        mv = [ev.ret for ev in e3.events.values() if ev.callee == MOV and ev.ret is not None]
+        half = lambda t: t[0] == 'c' and t[1] == 'f64' and f64_from_bits(t[2]) == 0.5
+        found = {"sub": [], "add": []}
+        for v in rets3:
+            for slot, op in ((1, "sub"), (2, "add")):
+                x = v[3][slot]
+                g = e3.phi_gate.get(x) if x[0] == 'phi' else None
+                if g is None: continue
+                for tv, fv, pol in ((g[1], g[2], True), (g[2], g[1], False)):
+                    if tv[0] == 'op' and tv[1] == op and tv[3] == fv and half(tv[4]):
+                        truth = []
+                        for m in mv:
+                            vals = [feval(g[0], {m: k}, e3) for k in (-1, 0, 1)]
+                            if None not in vals: truth.append([bool(b_) == pol for b_ in vals])
+                        found[op].append(truth)
+        oks = all(len(found[op]) == 1 and found[op][0] == [[True, False, False]] for op in ("sub", "add"))
+        ctx.report(clause, fn2 + ":half-box-shift-iff-moved-from-the-west", oks,
+                   "dl - 1/2 and dh + 1/2 are taken exactly when move_inside_polar_cap_facet returned -1 (read at -1, 0, 1)" if oks else
+                   "the half-box shift of the offsets is not tied to the return value -1 of move_inside_polar_cap_facet: %s" % found, at=b2.span, kind="N")
+        consts = [(i, f64_from_bits(v[3][i][2])) for v in rets for i in (1, 2) if v[3][i][0] == 'c' and v[3][i][1] == 'f64']
+        badc = [c for c in consts if not (0.0 <= c[1] <= 1.0)]
+        ctx.report(clause, fn2 + ":constant-offsets-in-[0,1]", bool(rets) and not badc, "%d returned tuples, constant offsets %s" % (len(rets), sorted(set(c[1] for c in consts))) if not badc else
+                   "an early exit returns the constant %r as an in-cell offset" % badc[0][1], at=b2.span, kind="N")
+
+
 def run(ctx):
     crate = ctx.crate("rel")
     e0, r0 = run_fn(crate, "ring::n_hash"); ctx.functions |= e0.visited_fns
@@ -28,6 +133,7 @@ def run(ctx):
             lo, los, hi, his = float_interval(r.facts, param(p))
             ok = lo >= 0.0 and (hi < 1.0 or (hi == 1.0 and his))
             ctx.report("offset-guard", "%s:%s" % (fn, p), ok, "%s ∈ [%r, %r%s at every normal return" % (p, lo, hi, ")" if his else "]"), at=b.span)
+    ring_offsets(ctx, crate)
     n = e7.check_fn(ctx, crate, "ring::center_of_projected_cell", "exact-integer-sqrt")
     ctx.floor("sqrt-chains-in-center_of_projected_cell", n, 1)
     try:
